@@ -1067,6 +1067,13 @@ def fam_tsur(w, acc):
     if sr < cr:
         parts.append(("sample", sr, perm))
     for part, n_s, times in parts:
+        # a window that is not constant but has a spread below 1e-4 of its magnitude is constant or
+        # not after the cast to single precision: statistic not reproducible, part not compared
+        wins = [d[times + t - tm, v] for v in range(N) for t in range(2 * tm + 1)]
+        if any(0 < np.ptp(x_) <= 1e-4 * max(1.0, float(np.abs(x_).max())) for x_ in wins):
+            acc.skip("time_surrogate_*: sampled window with a spread below 1e-4 of its magnitude "
+                     "(constant or not in single precision): not compared")
+            continue
         # ---- cross-correlation
         F = np.full((2 * tm + 1, N, N), np.nan)
         for t in range(2 * tm + 1):
@@ -1127,9 +1134,11 @@ def fam_edges(w, acc):
     if not np.array_equal(pp.dataarray, before):
         acc.fail("pure.mutual_information_edges/data-unchanged", w, "dataarray modified by the call")
         return
+    b = e.shape[1]
+    if b < 2:
+        return                # one bin: the normalisation by log(bins) is undefined
     acc.case(wkey(w) + "|mi", n_nonconst(d) >= 2)
     sym = [np.array([int((e[i] <= v).sum()) - 1 for v in d[:, i]]) for i in range(N)]
-    b = e.shape[1]
     doc = np.array([[_pure_mi_doc(sym[i], sym[j], b) for j in range(N)] for i in range(N)])
     ok, a = _call(acc, "pure.mutual_information_edges/binning-of-mutual_information", w,
                   pp.mutual_information, bins=bins, tau_max=0, lag_mode="all")
@@ -1192,15 +1201,28 @@ def fam_cns(w, acc):
                 acc.fail(check, w, f"shape {x.shape} != {want_shape}")
                 continue
             mats = x if mode == "all" else (x if mode == "sum" else x[:1])
+            if kind == "mi":
+                # a constant series stays constant (all values tied: the documented formula does not
+                # apply); only the pairs of non-constant series are judged
+                keep = np.nonzero(nonconst)[0]
+                mats = [M_[np.ix_(keep, keep)] for M_ in mats]
+                if len(keep) == 0:
+                    continue
             top = (tm + 1.0) if mode == "sum" else 1.0
             lo = -top if (kind == "cc" and mode == "all") else 0.0
+            # normalised MI (2 log b - H_xy) / log b: in [0, 1] with unit diagonal when every bin holds
+            # the same number of samples; surrogates of commensurate sinusoids can have tied values,
+            # then only 0 <= . <= 2 and diagonal >= 1 follow from 0 <= H_xy <= 2 log b, H_xx <= log b
+            loose = kind == "mi" and w["data"].get("kind") == "sine"
+            hi = 2.0 * top if loose else top
             msg = None
             for M_ in mats:
-                if not np.all(np.isfinite(M_)) or M_.min() < lo - 2 * ATOL * top or M_.max() > top * (1 + 2 * ATOL) + 2 * ATOL:
-                    msg = f"range [{M_.min()!r}, {M_.max()!r}] outside [{lo}, {top}]"
+                dg = np.diag(M_)[nonconst] if kind == "cc" else np.diag(M_)
+                if not np.all(np.isfinite(M_)) or M_.min() < lo - 2 * ATOL * top or M_.max() > hi * (1 + 2 * ATOL) + 2 * ATOL:
+                    msg = f"range [{M_.min()!r}, {M_.max()!r}] outside [{lo}, {hi}]"
                 elif np.any(~tol_ok(M_, M_.T, 2.0 * top)):
                     msg = "matrix not symmetric"
-                elif np.any(~tol_ok(np.diag(M_)[nonconst], top, 2.0 * top)):
+                elif (np.any(dg < top - 4 * ATOL * top) if loose else np.any(~tol_ok(dg, top, 2.0 * top))):
                     msg = f"diagonal {np.diag(M_).tolist()} != {top} for the non-constant series"
                 if msg:
                     break
